@@ -261,8 +261,9 @@ func (su *Summarize) Transform() Query {
 	if _, ok := src.(*Nothing); ok {
 		return NewNothing(su)
 	}
-	if p, ok := src.(*Project); ok && p.unique {
+	if p, ok := src.(*Project); ok && p.unique && !su.wholeRow {
 		// remove project-copy
+		// not for whole row min/max, the result includes the source columns
 		return NewSummarize(p.source, su.hint, su.by, su.cols, su.ops, su.ons)
 	}
 	if src != su.source {
